@@ -281,6 +281,13 @@ def _col_ok(g, e) -> bool:
     return _is_num(g) and _is_num(e) and float(g) == float(e)
 
 
+#: What an omitted key may be read as.  Quaver's serializer leaves out members that hold their type's default, so the
+#: format's own reading of an omitted ``Multiplier`` / ``Bpm`` is 0; reamber documents 1.0 for the multiplier (an SV that
+#: changes nothing) and 120 for the bpm.  Either is accepted (the format's default cannot be confirmed offline), any other
+#: number is a defect (seeded/C06-adv5: 120 for a multiplier).
+OMITTED_DEFAULTS = {"multiplier": (0.0, 1.0), "bpm": (0.0, 120.0)}
+
+
 def chart_diff(
     got: dict,
     exp: dict,
@@ -356,6 +363,8 @@ def chart_diff(
             if b.get(field) is None:
                 if not (_is_num(v) and math.isfinite(v)):
                     out.append((f"{name}-value-not-finite", f"got={a!r} (key omitted in the document)"))
+                elif float(v) not in OMITTED_DEFAULTS[field]:
+                    out.append((f"{name}-omitted-default", f"got={a!r}: key omitted in the document, accepted defaults {OMITTED_DEFAULTS[field]}"))
             elif not (_is_num(v) and same_value(float(v), float(b[field]), value_rel)):
                 out.append((f"{name}-value", f"got={a!r} expected={b!r}"))
 
